@@ -152,10 +152,13 @@ def run(ctx):
                 ctx.violation('impl-violation', op='pool-modified', input=json.dumps(impl.to_shapes(payload)),
                               observed=repr(of_impl(mod))[:800], expected='children identical to the trees sent; hash as built locally')
     # --- identities of nodes built in pool workers
-    ncase, probs = nc.cross_process_probe(impl, rng, 12 if ctx.thorough else 4, redup=False)
+    ncase, probs = nc.cross_process_probe(impl, rng, 12 if ctx.thorough else 4, redup=False, model=model)
     ctx.count('cross-process identity rounds', ncase)
     for pr in probs:
-        ctx.violation('impl-violation', op=pr['op'], input=json.dumps(pr['input']), observed=pr['observed'][:800], expected=pr['expected'])
+        if pr.get('kind') == 'disagree':
+            ctx.disagree(pr['op'], input=json.dumps(pr['input']), impl=pr['observed'][:800], model=pr['expected'][:800])
+        else:
+            ctx.violation('impl-violation', op=pr['op'], input=json.dumps(pr['input']), observed=pr['observed'][:800], expected=pr['expected'])
     # --- traversals and counts
     for _ in range(N // 2):
         lst = [nc.gen_tree(impl, rng, rng.choice([0, 2, 4])) for _ in range(rng.choice([0, 1, 2, 3]))]
